@@ -157,6 +157,8 @@ def run(chk):
         "harness tools/props/c01.py, tools/vlib/wholefile.py, tools/vlib/spec.py",
     ]
     leanio.prove(chk, "MontePyVerif.Props.C01Blocks", THEOREMS, "MontePyVerif")
+    if chk.thorough:
+        leanio.leanchecker(chk, ["MontePyVerif.Props.C01Blocks"])
     drv = leanio.Driver(chk, "drv_c01")
 
     cases = [c for c in gen_cases(chk) if not _has_read_card(c["text"])]
